@@ -15,6 +15,23 @@ BOUNDED = ('lfu', 'lru', 'mru', 'rr')
 PERSISTENT_BACKENDS = ('file', 'dir', 'sql')
 ARG_UNIVERSE = (1, 2, 3)
 ALGOS = ('no', 'inf') + BOUNDED
+WITNESS = (1, 1.0, True, '1', 2)          # equal-but-differently-typed arguments (and one unrelated value)
+DISTINGUISHING = ('rawtyped', 'str', 'strflat', 'pickle', 'picklenf', 'md5', 'md5nf', 'strtyped')   # keymaps that must keep 1 / 1.0 / True / '1' apart
+SPECIAL_RESULTS = (None, 0)               # results a sloppy truth test or a get() default would mistake for 'nothing stored'
+
+
+class UserError(Exception):
+    """raised by the wrapped function on the calls the symbolic predicate FR selects"""
+
+
+def warg(v):
+    """z3-side stand-in of an argument: atoms as they are, concrete witnesses by their index"""
+    if isinstance(v, Sym):
+        return v
+    for i, w in enumerate(WITNESS):
+        if type(w) is type(v) and w == v:
+            return i
+    return v
 
 
 def make_keymap(name):
@@ -31,6 +48,7 @@ def make_keymap(name):
         'picklenf': lambda: picklemap(flat=False, serializer='dill'),
         'md5': lambda: hashmap(algorithm='md5'),
         'md5nf': lambda: hashmap(flat=False, algorithm='md5'),
+        'strtyped': lambda: stringmap(typed=True),
         'default': lambda: None,
     }[name]()
 
@@ -43,7 +61,7 @@ def sym_choice(seq):
 def eq_all(xs, ys):
     if len(xs) != len(ys):
         return False
-    return And(*[(x == y) for x, y in zip(xs, ys)])
+    return And(*[((x == y) if isinstance(x, Sym) or isinstance(y, Sym) else (type(x) is type(y) and x == y)) for x, y in zip(xs, ys)])
 
 
 class Hist:
@@ -158,22 +176,32 @@ class Hist:
             arch.installer().fresh()
             self.shim.close_all()
         shape = cfg.get('shape', 'x')
+        special, raises = cfg.get('special'), cfg.get('raises')
+        fname = 'F' if shape == 'x' else 'F2'
+
+        def F(b):
+            """the deterministic function under memoization: an uninterpreted function of the bound arguments
+            (optionally returning None / 0 for the arguments an uninterpreted tag selects)"""
+            z = [warg(v) for v in b]
+            if special:
+                t = ctx.apply_tag(fname + 'T', z, len(SPECIAL_RESULTS) + 1)
+                if t:
+                    return SPECIAL_RESULTS[t - 1]
+            return ctx.apply(fname, z)
+
+        def body(b):
+            evals.append(b)
+            if raises and ctx.apply_pred(fname + 'R', [warg(v) for v in b]):
+                raise UserError(len(evals))
+            return F(b)
         if shape == 'x':
             def f(x):
-                evals.append((x,))
-                return ctx.apply('F', [x])
-
-            def F(b):
-                return ctx.apply('F', list(b))
+                return body((x,))
         else:
             D = ctx.atom(ArgSort, 'd')
 
             def f(x, y=D):
-                evals.append((x, y))
-                return ctx.apply('F2', [x, y])
-
-            def F(b):
-                return ctx.apply('F2', list(b))
+                return body((x, y))
         # maxsize
         ms = cfg.get('maxsize', 'sym')
         if algo == 'no':
@@ -211,11 +239,19 @@ class Hist:
         alphabet = ('call', 'dump', 'load', 'clear', 'clear_keep', 'off', 'on')
         fixed = cfg.get('pattern')           # compaction histories: step i re-uses atom pattern[i] (None = fresh)
         atoms = []
+        script = cfg.get('script')           # a fixed sequence of operations (named scenarios); arguments stay symbolic
+        if cfg.get('alphabet'):
+            alphabet = tuple(cfg['alphabet'])
         for i in range(N):
-            op = alphabet[ctx.choice(len(alphabet), 'op')] if mgmt else 'call'
+            if script is not None:
+                op = script[i]
+            else:
+                op = alphabet[ctx.choice(len(alphabet), 'op')] if mgmt else 'call'
             if op == 'call':
                 if cfg['backend'] in PERSISTENT_BACKENDS:
                     x = ARG_UNIVERSE[ctx.choice(len(ARG_UNIVERSE), 'xi')]     # keys become file names / SQL parameters
+                elif cfg.get('args') == 'witness':
+                    x = WITNESS[ctx.choice(len(WITNESS), 'wi')]
                 else:
                     x = ctx.atom(ArgSort, 'x')
                 if fixed is not None and i < len(fixed) and fixed[i] is not None:
@@ -298,7 +334,11 @@ class _State:
             in_arch = (not in_mem) and (kb in arch_b)
             n_before = len(self.evals)
             info_b = g.info()
-            r = g(*args, **kw)
+            failed = None
+            try:
+                r = g(*args, **kw)
+            except UserError as e:
+                failed = e
             mem_a, arch_a = self.snap()
             info_a = g.info()
         except (PathPruned, Inconclusive):
@@ -306,8 +346,10 @@ class _State:
         except Exception as e:
             ctx.check(False, '%s:no-exception' % P, {'kind': 'call raised', 'exc': type(e).__name__})
             return False
-        self.calls += 1
         n_ev = len(self.evals) - n_before
+        if failed is not None:
+            return self.failed_call(failed, n_ev, in_mem, in_arch, mem_b, mem_a, arch_b, arch_a, info_a)
+        self.calls += 1
         evaluated = n_ev > 0
         expect = self.F(bound)
         if 'C01' in props:
@@ -322,10 +364,10 @@ class _State:
             if evaluated:
                 ctx.check(eq_all(self.evals[-1], bound), 'C02:args', {'kind': 'evaluated on other arguments'})
                 if self.lossless:
-                    for e in self.ever:
-                        ctx.check(Not(eq_all(e, bound)), 'C02:distinct', {'kind': 're-evaluated a key that reached the archive'})
+                    for e, _k in self.ever:
+                        ctx.check(Not(eq_all(e, bound)), 'C02:distinct', {'kind': 're-evaluated a key whose result was still stored'})
         if evaluated:
-            self.ever.append(bound)
+            self.ever.append((bound, kb))
         # ground-truth classification
         if self.algo == 'no':
             cls = 'load' if (in_arch or in_mem) else 'miss'     # 'for the non-caching decorator: every retrieved result'
@@ -338,6 +380,25 @@ class _State:
             self.check_capacity(mem_b, mem_a, in_mem)
         if 'C06' in props or 'C07' in props:
             self.check_eviction(i, kb, mem_b, mem_a, arch_b, arch_a, in_mem)
+        return True
+
+    def failed_call(self, err, n_ev, in_mem, in_arch, mem_b, mem_a, arch_b, arch_a, info_a):
+        """the wrapped function raised (symbolic predicate FR): nothing may be recorded, evicted, counted or lost"""
+        ctx, props = self.ctx, self.props
+        same_mem = len(mem_a) == len(mem_b) and all((k in mem_a) and (mem_a[k] == v) for k, v in mem_b.items())
+        same_arch = len(arch_a) == len(arch_b) and all((k in arch_a) and (arch_a[k] == v) for k, v in arch_b.items())
+        if 'C02' in props:
+            ctx.check(n_ev == 1, 'C02:once', {'kind': 'failing call evaluated %d times' % n_ev})
+        if 'C15' in props:
+            self.check_info(info_a, mem_a, 'failing call')
+        if 'C05' in props:
+            self.check_capacity(mem_b, mem_a, True)
+        if 'C06' in props:
+            ctx.check(same_mem, 'C06:failed-call-keeps', {'kind': 'a failing call changed the resident set'})
+        if 'C07' in props:
+            ctx.check(same_mem and same_arch, 'C07:failed-call-keeps', {'kind': 'a failing call changed memory or archive'})
+        if 'C01' in props:
+            ctx.check(same_mem and same_arch, 'C01:failed-call-stores-nothing', {'kind': 'a failing call changed memory or archive'})
         return True
 
     # -- C15
@@ -399,7 +460,7 @@ class _State:
                 if self.lossless:
                     vals_mem = list(mem_a.values())
                     vals_arch = list(arch_a.values())
-                    for e in self.ever:
+                    for e, _k in self.ever:
                         v = self.F(e)
                         ctx.check((v in vals_mem) or (v in vals_arch), 'C07:retrievable', {'kind': 'computed result lost'})
         if 'C06' in props and self.tracked and not self.purge_active():
@@ -458,21 +519,23 @@ class _State:
         ctx, g = self.ctx, self.g
         P = self.cfg['props'][0]
         try:
+            mem0, arch0 = self.snap()
             if op == 'dump':
                 g.dump()
             elif op == 'load':
                 g.load()
                 self.tracked = False
-            elif op == 'clear':
-                g.clear()
-                self.hit = self.miss = self.load = 0
-                self.calls = 0
-                self.lossless = False
+            elif op in ('clear', 'clear_keep'):
+                if op == 'clear':
+                    g.clear()
+                    self.hit = self.miss = self.load = 0
+                    self.calls = 0
+                else:
+                    g.clear(keepstats=True)
+                # results that were only in memory are gone; those that had reached the archive stay retrievable
+                self.ever = [(b, k) for (b, k) in self.ever if k in arch0]
                 self.count.clear()
-            elif op == 'clear_keep':
-                g.clear(keepstats=True)
-                self.lossless = False
-                self.count.clear()
+                self.last_use.clear()
             elif op in ('off', 'on'):
                 try:
                     g.archived(op == 'on')
@@ -490,6 +553,14 @@ class _State:
             self.check_info(info, mem, op)
             if op in ('clear', 'clear_keep'):
                 ctx.check(len(mem) == 0, 'C15:clear-empties', {'kind': 'clear left entries'})
+        if 'C07' in self.props and op in ('dump', 'load', 'clear', 'clear_keep'):
+            c = g.__cache__()
+            if c.archive is not c and c.archived():
+                for k, v in arch0.items():
+                    ctx.check((k in arch) and (arch[k] == v), 'C07:archive-monotone', {'kind': '%s changed or removed an archived entry' % op})
+                if op == 'dump':
+                    for k, v in mem0.items():
+                        ctx.check((k in arch) and (arch[k] == v), 'C07:dump-archives', {'kind': 'dump() left a cached entry out of the archive'})
 
     def second_instance(self, H):
         """a second decorator instance on a fresh function object sharing the first one's archive"""
@@ -525,9 +596,18 @@ def plan(prop, tier):
 
     def add(**kw):
         kw.setdefault('props', [prop])
+        if kw.get('script'):
+            kw['N'] = len(kw['script'])
         name = '%s/%s-%s%s/%s/%s/%s/N%d%s' % (kw.get('scenario', 'hist'), kw['module'], kw['algo'], '+purge' if kw.get('purge') else '',
                                               kw['backend'], kw.get('keymap', 'raw'), kw.get('shape', 'x'), kw['N'],
                                               '/mgmt' if kw.get('ops') == 'mgmt' else '')
+        for flag in ('special', 'raises'):
+            if kw.get(flag):
+                name += '/' + flag
+        if kw.get('args'):
+            name += '/' + kw['args']
+        if kw.get('maxsize', 'sym') not in ('sym', 'sym0') and kw.get('scenario', 'hist') == 'hist':
+            name += '/ms=%s' % kw['maxsize']
         if kw.get('canary'):
             name = 'canary:' + name
         kw['name'] = name
@@ -537,7 +617,35 @@ def plan(prop, tier):
         cfgs.append(kw)
 
     mods = ('std', 'safe')
+    C = 'call'
+    SCRIPTS = {
+        'refill': [C, C, 'clear', C, C, C],                  # overflow/purge, clear(), overflow/purge again
+        'reload': [C, C, 'dump', 'clear', 'load', C, C, C],  # entries that are resident without a recorded use
+        'toggle': [C, C, 'off', C, C, 'on', C, C],           # evictions while archiving is switched off
+    }
+
+    def add_scenarios(props_raises=True):
+        """extensions shared by the history properties: results None/0, failing calls, named operation scripts, bulk preload"""
+        for m in mods:
+            for a in ALGOS:
+                purges = (False, True) if a in BOUNDED else (False,)
+                for p in purges:
+                    add(module=m, algo=a, purge=p, backend='cached_dict', N=3 if q else 4, special=True, raises=True)
+                    if a in BOUNDED:
+                        for sname, sc in SCRIPTS.items():
+                            if q and sname == 'toggle':
+                                continue
+                            add(module=m, algo=a, purge=p, backend='cached_dict', script=sc, scenario=sname)
+                if a in BOUNDED and prop != 'C05':
+                    add(module=m, algo=a, backend='cached_dict', N=3 if q else 4, preload=2 if q else 3, scenario='preload')
+                add(module=m, algo=a, backend='none', N=4 if q else 5, raises=True)
+
     if prop in ('C01', 'C02', 'C15'):
+        add_scenarios()
+        for m in mods:
+            for a in ALGOS:
+                for km in (('rawtyped', 'str', 'md5') if q else ('rawtyped', 'str', 'strflat', 'strtyped', 'pickle', 'md5')):
+                    add(module=m, algo=a, backend='cached_dict', keymap=km, N=3 if q else 4, args='witness')
         N = 5 if q else 6
         Nm = 3 if q else 4
         for m in mods:
@@ -586,6 +694,7 @@ def plan(prop, tier):
                     for pos in (False, True):
                         add(module=m, algo=a, backend='none', N=3, maxsize='sym0', maxsize_positional=pos, scenario='ctor')
                         add(module=m, algo=a, backend='none', N=3, maxsize=None, maxsize_positional=pos, scenario='ctor')
+        add_scenarios()
         add(module='std', algo='lru', backend='none', N=3, canary=True)
     elif prop == 'C06':
         N = 5 if q else 7
@@ -593,12 +702,20 @@ def plan(prop, tier):
             for a in BOUNDED:
                 for b in ('none', 'cached_dict'):
                     add(module=m, algo=a, backend=b, N=N)
+                    add(module=m, algo=a, backend=b, N=4 if q else 5, raises=True)
+                # longer histories at a fixed small bound: evict-then-reload, re-entry with a stale use record
+                for ms, n in (((2, 7),) if q else ((2, 9), (3, 8))):
+                    if a == 'rr':
+                        n -= 2
+                    add(module=m, algo=a, backend='cached_dict', N=n, maxsize=ms, split=3 if n >= 8 else 0)
+            add(module=m, algo='lru', backend='none', N=24, maxsize=2, pattern=[None, None] + [i % 2 for i in range(2, 21)],
+                scenario='compaction2')
             # LRU queue compaction: maxsize=1, 11 uses of one key, then two free calls
             add(module=m, algo='lru', backend='none', N=13, maxsize=1, pattern=[None] + [0] * 10, scenario='compaction1')
             if not q:
-                add(module=m, algo='lru', backend='none', N=24, maxsize=2, pattern=[None, None] + [i % 2 for i in range(2, 21)],
-                    scenario='compaction2')
                 add(module=m, algo='lru', backend='cached_dict', N=13, maxsize=1, pattern=[None] + [0] * 10, scenario='compaction1')
+                add(module=m, algo='lru', backend='cached_dict', N=24, maxsize=2, pattern=[None, None] + [i % 2 for i in range(2, 21)],
+                    scenario='compaction2')
         add(module='std', algo='lru', backend='none', N=4, canary=True)
         add(module='std', algo='mru', backend='none', N=4, canary=True)
     elif prop == 'C07':
@@ -613,5 +730,7 @@ def plan(prop, tier):
                     if m == 'std' or not q:
                         for b in PERSISTENT_BACKENDS:
                             add(module=m, algo=a, purge=p, backend=b, keymap='strflat' if b == 'sql' else 'raw', N=3 if q else 4, maxsize=1 if q else 'sym')
+                    add(module=m, algo=a, purge=p, backend='cached_dict', N=3 if q else 4, ops='mgmt')
+        add_scenarios()
         add(module='std', algo='lru', backend='cached_dict', N=4, canary=True)
     return cfgs
